@@ -260,6 +260,16 @@ pub fn run(run: &Run) {
         vec![-4.0, -1.0, -0.0],
         vec![-1.0, -0.0, 2.0],
     ];
+    // the same sets on a microscopic axis: scaled by 2^-60 (exact) and by 1e-17 (knot spacing below machine epsilon in
+    // absolute terms; the rule is scale-free)
+    let mut special = special;
+    for x in special.clone().iter().take(6).chain([vec![0.0, 3.0, 6.0, 12.0, 18.0], vec![1.0, 2.0, 4.0, 7.0]].iter()) {
+        special.push(x.iter().map(|v| v * 2f64.powi(-60)).collect());
+        let t: Vec<f64> = x.iter().map(|v| v * 1e-17).collect();
+        if t.windows(2).all(|w| w[0] < w[1]) {
+            special.push(t);
+        }
+    }
     special.par_iter().for_each(|x| {
         let n = x.len();
         for pat in 0..6 {
